@@ -49,7 +49,7 @@ fn main() {
     let ctx = Ctx { prop: prop.clone(), tier, seed };
     silence_stdout();
     install_silent_panic_hook();
-    set_time_cap(tier.pick(240.0, 1500.0));
+    set_time_cap(tier.pick(900.0, 1500.0));
     if args.len() >= 3 && args[2] == "--child-digest" {
         out_line(&format!("{}", history::digest_of_reference()));
         std::process::exit(0);
